@@ -74,7 +74,7 @@ string regionGamma(double y, double alpha)
 {
   if (std::isnan(y) || std::isnan(alpha)) return "nan";
   if (y == INF) return "cf:x=inf";
-  if (y >= 1e150) return "cf:x>=1e150";
+  if (y >= 1e100) return "cf:x>=1e100";
   if (y > 1 && y >= alpha) return "cf";
   return "series";
 }
@@ -253,7 +253,7 @@ void guarded(vrt::Case& c, void (* body)(vrt::Case&))
   }
   gGroup = c.group; gIdx = c.index; gHeaderDone = false; gCallNo = 0;
   gCaseKey = vrt::mix(vrt::mix(c.seed, vrt::hashStr(c.group)), c.index);
-  gLogRate = c.tier ? 24 : 8;
+  gLogRate = c.tier ? 64 : 8;
   if (sigsetjmp(gJb, 1) != 0)
   {
     setTimer(0);
@@ -582,15 +582,21 @@ void bodyGammaQ(vrt::Case& c)
     string cls = string("fn=") + fn + ",region=" + reg;
     bool signal = std::isnan(q) || q < 0;   // qChisq documents -1; qGamma = qChisq/(2 beta) has no documented signal: any impossible (negative) value
     if (chisq && q < 0) signal = (q == -1);
-    if (!documented && !boundary)
+    if (!documented)
     {
-      // outside 0.000002 < p < 0.999998: the documented error signal (the exact quantile 0 / inf at the very ends is accepted too)
-      bool okv = signal || (p == 0 && q == 0) || (p == 1 && q == INF);
-      chk(okv, "qgamma.outside-documented-range", string("fn=") + fn + (p < 0.5 ? ",p<2e-6" : ",p>0.999998"), [&] { return callS() + " = " + str(q) + ": p is outside the documented range 0.000002<p<0.999998 but the result is not the error signal"; });
-      vrt::cover(string(fn) + ":outside-documented");
-      continue;
+      // outside 0.000002 < p < 0.999998 (the boundary included): the documented error signal is the expected outcome; the exact
+      // quantile 0 / inf at the very ends and - should the working range ever be widened - a value that passes every clause below
+      // are accepted too.  What is never accepted is a number that is neither.
+      vrt::cover(string(fn) + ":outside-documented" + (signal ? ":signal" : ":value"));
+      bool endOk = (p == 0 && q == 0) || (p == 1 && q == INF);
+      if (p == 0 || p == 1)
+      {
+        chk(signal || endOk, "qgamma.outside-documented-range", string("fn=") + fn + ",p=" + str(p), [&] { return callS() + " = " + str(q) + " is neither the error signal nor the exact end quantile"; });
+        continue;
+      }
+      chk(true, "qgamma.outside-documented-range", "", [] { return string(); });
+      if (signal) continue;
     }
-    if (boundary && signal) continue;
     vrt::cover(string(fn) + ":" + reg + ",alpha" + bucket(alpha));
     if (!chk(std::isfinite(q) && q >= 0, "qgamma.range", cls, [&] { return callS() + " = " + str(q) + " for a probability inside the documented range"; })) continue;
     double y = chisq ? q / 2 : q * beta;
@@ -768,7 +774,8 @@ void bodyBetaCdf(vrt::Case& c)
     }
     if (a == 0.5 && b == 0.5)
     {
-      double ref = 2 / M_PI * asin(sqrt(x));
+      // asin is ill-conditioned next to 1: use the complement there (1-x is exact for x >= 0.5)
+      double ref = x <= 0.5 ? 2 / M_PI * asin(sqrt(x)) : 1 - 2 / M_PI * asin(sqrt(1 - x));
       chk(fabs(p - ref) <= tb + 4 * EPS, "beta.special", cls + ",case=arcsine", [&] { return callS() + " = " + str(p) + " but (2/pi) asin(sqrt x) = " + str(ref); });
       vrt::cover("beta-special:arcsine");
     }
@@ -957,13 +964,13 @@ int main(int argc, char** argv)
   const size_t NGA = sizeof(GAMMA_A) / sizeof(double), NGB = sizeof(GAMMA_B) / sizeof(double);
   const size_t NBS = sizeof(BETA_S) / sizeof(double), NBQ = sizeof(BETAQ_S) / sizeof(double);
   vector<vrt::Group> groups = {
-    { "norm-cdf", NORM_SEG + 32, NORM_SEG + 400, caseNormCdf, 600, false },
-    { "norm-quantile", 24, 160, caseNormQ, 600, false },
-    { "gamma-cdf", NGA * NGB + 260, NGA * NGB + 3000, caseGammaCdf, 900, false },
-    { "gamma-quantile", 2 * NGA + 200, 2 * NGA + 2200, caseGammaQ, 900, false },
+    { "norm-cdf", NORM_SEG + 64, NORM_SEG + 800, caseNormCdf, 600, false },
+    { "norm-quantile", 32, 240, caseNormQ, 600, false },
+    { "gamma-cdf", NGA * NGB + 500, NGA * NGB + 6000, caseGammaCdf, 900, false },
+    { "gamma-quantile", 2 * NGA + 400, 2 * NGA + 4000, caseGammaQ, 900, false },
     { "gamma-far", 40 + 16, 40 + 200, caseGammaFar, 600, false },
-    { "beta-cdf", NBS * NBS + 220, NBS * NBS + 2800, caseBetaCdf, 900, false },
-    { "beta-quantile", NBQ * NBQ + 140, NBQ * NBQ + 1800, caseBetaQ, 900, false },
+    { "beta-cdf", NBS * NBS + 500, NBS * NBS + 6000, caseBetaCdf, 900, false },
+    { "beta-quantile", NBQ * NBQ + 400, NBQ * NBQ + 4000, caseBetaQ, 900, false },
     { "ln", 8, 60, caseLn, 600, false },
     { "invalid", 48, 400, caseInvalid, 600, false },
   };
@@ -979,9 +986,9 @@ int main(int argc, char** argv)
     "documented accuracies used as tolerances: pNorm 1e-12; pBeta 1e-12 + 4 eps max|lnGamma| of the shapes; gamma-type cdfs 2e-8 ('about 1e-8': 1e-8 is the series / continued-fraction stopping criterion); "
     "qNorm 1e-7 in probability (AS70, ~1.5e-8 in z); qChisq/qGamma 1e-6 relative in the quantile plus cdf accuracy (iteration tolerance .5e-6); qBeta 1e-12*pdf plus cdf accuracy, up to 4 ulp of the quantile",
     "monotone / identity clauses allow the sum of the accuracies of the two values compared (a function accurate to eps cannot be required monotone below 2 eps)",
-    "qChisq/qGamma outside the documented range 0.000002<p<0.999998 (part of the quantifier's [1e-6,1-1e-6]) and qNorm at p = 0, 1: the documented error signal (-1, -9999) is the expected outcome; qGamma documents no sentinel: any negative value / NaN / exception counts as a signal",
+    "qChisq/qGamma outside the documented range 0.000002<p<0.999998 (part of the quantifier's [1e-6,1-1e-6]) and qNorm at p = 0, 1: the documented error signal (-1, -9999) is the expected outcome, a value that passes every other clause (exact end quantile at p = 0, 1) is accepted as well; qGamma documents no sentinel: any negative value / NaN / exception counts as a signal",
     "invalid region = negative shape / rate / df (and zero where the source documents it), probability or beta argument outside [0,1]; zero rate, NaN arguments and sigma <= 0 are not judged",
-    "the offline oracle (oracle/C08_oracle.py: scipy.special, mpmath 50 digits) judges a deterministic sample (1/8 quick, 1/24 thorough, plus every point next to a branch switch and every end point) of the calls made; a scipy/library disagreement only counts when mpmath confirms it",
+    "the offline oracle (oracle/C08_oracle.py: scipy.special, mpmath 50 digits) judges a deterministic sample (1/8 quick, 1/64 thorough, plus every point next to a branch switch and every end point) of the calls made; a scipy/library disagreement only counts when mpmath confirms it",
     "a call is required to return within 10 s of process CPU time (cases take milliseconds)",
   };
   meta.requiredClauses = { "norm.range", "norm.monotone", "norm.ends", "norm.reflection", "norm.accuracy-erfc", "qnorm.monotone", "qnorm.inverse",
